@@ -261,7 +261,8 @@ class TextFileStorage(Storage[str]):
         """
 
         with self._storage_lock:
-            for i in range(len(self)):
+            # the index covers all identifiers, the number of stored data is smaller when there are gaps
+            for i in range(len(self._index)):
                 try:
                     yield self[i]
                 except IndexError:
